@@ -315,7 +315,7 @@ def r3_bytes_tagging(ctx):
     ev = Evaluator(corpus, depth=2)
     r = strip_sites(ev.run(th))
     want = ('dict', ((('const', '!b'), ('call', ('name', 'str'), (('call', ('name', 'base64.standard_b64encode'), (('param', 'object'),), ()), ('const', 'ascii')), ())),))
-    raises = any(isinstance(n, ast.Raise) for n in th.node.body)
+    raises = any(isinstance(n, ast.Raise) for n in ast.walk(th.node))
     ctx.check(r == want and raises, 'C14.R3', f'{func_label(th)}|bytes-tag-writer', loc(th, th.node), "type_hint: byte strings -> {'!b': base64-standard(ascii)}, anything else raises", f'type_hint changed: {show(r, limit=160)}')
     ev = Evaluator(corpus, depth=2)
     r = strip_sites(ev.run(tr))
@@ -397,7 +397,13 @@ def r4_legacy(ctx):
     )
     # the metadata handed to restore_metadata is the stored record's 'metadata' itself
     fn = corpus.func('repository', 'Repository.restore')
-    okm = any(isinstance(a, ast.Assign) and isinstance(a.value, ast.Tuple) and any(isinstance(e, ast.Subscript) and isinstance(e.slice, ast.Constant) and e.slice.value == 'metadata' and isinstance(e.value, ast.Name) for e in a.value.elts) for a in walk_local(fn.node))
+    okm = False
+    for e in ast.walk(fn.node):
+        if isinstance(e, ast.Subscript) and isinstance(e.slice, ast.Constant) and e.slice.value == 'metadata' and isinstance(e.value, ast.Name) and isinstance(e.ctx, ast.Load):
+            par = getattr(e, '_parent', None)
+            # stored as it is: element of the plan tuple, or field of a plan record (positional / keyword argument of its constructor)
+            if isinstance(par, ast.Tuple) or (isinstance(par, ast.Call) and e in par.args and isinstance(par.func, ast.Name) and par.func.id[:1].isupper() or (isinstance(par, ast.Call) and e in par.args and isinstance(par.func, ast.Name) and par.func.id.startswith('_') and par.func.id[1:2].isupper())) or isinstance(par, ast.keyword):
+                okm = True
     ctx.check(okm, 'C14.R6', f'{func_label(fn)}|metadata-passed-unchanged', loc(fn, fn.node), "restore plans (target, file_data['metadata']) - the stored metadata object unchanged", "restore no longer passes the stored file_data['metadata'] unchanged to restore_metadata")
 
 
